@@ -1372,3 +1372,22 @@ Proof.
     + rewrite <- (map_map conv SItem). apply items_of_app_err.
     + apply (items_of_app_err [] e []).
 Qed.
+
+(* ------------------------------------------------------------------ S11: an abandoned stream *)
+Lemma abandoned_never_closed : forall conv rows k e taken,
+  (taken + 1 < length (firstn k rows) + e)%nat ->
+  ~ In SClose (emitted_when_abandoned (produce_cancelled conv (Some rows) k e) taken).
+Proof.
+  intros conv rows k e taken Hlen. unfold emitted_when_abandoned, produce_cancelled.
+  set (items := map (fun r => SItem (conv r)) (firstn k rows)).
+  assert (Hrl : removelast (items ++ repeat SErr e ++ [SClose]) = items ++ repeat SErr e).
+  { rewrite app_assoc. apply removelast_last. }
+  rewrite Hrl.
+  assert (Hl : length (items ++ repeat SErr e) = (length (firstn k rows) + e)%nat).
+  { rewrite app_length, repeat_length. unfold items. rewrite map_length. reflexivity. }
+  rewrite Hl. destruct (Nat.leb (length (firstn k rows) + e) (taken + 1)) eqn:E.
+  - apply Nat.leb_le in E. lia.
+  - intros H. apply firstn_In in H. apply in_app_iff in H. destruct H as [H|H].
+    + unfold items in H. apply In_items_not_close in H. exact H.
+    + apply repeat_spec in H. discriminate.
+Qed.
